@@ -180,6 +180,7 @@ func pickSide() perptypes.Position {
 }
 
 // liquidation list: the position may change only if its health is at or below the safety factor
+//
 //vrf:cover untouched liquidated
 //vrf:bound 1 position (LONG/uusdc or SHORT), symbolic custody/liabilities <= 1e18, symbolic swap rate, oracle price, stop-loss and take-profit prices; third-party sender
 func H_Perp_ClosePositions_Liquidate() {
@@ -200,6 +201,7 @@ func H_Perp_ClosePositions_Liquidate() {
 }
 
 // stop-loss list
+//
 //vrf:cover untouched closed
 func H_Perp_ClosePositions_StopLoss() {
 	w := setup(pickSide())
@@ -221,6 +223,7 @@ func H_Perp_ClosePositions_StopLoss() {
 }
 
 // take-profit list
+//
 //vrf:cover untouched closed
 func H_Perp_ClosePositions_TakeProfit() {
 	w := setup(pickSide())
@@ -241,6 +244,7 @@ func H_Perp_ClosePositions_TakeProfit() {
 }
 
 // owner-only messages sent by someone else name the sender's own (non-existent) position: refused, nothing changes
+//
 //vrf:cover refused
 func H_Perp_OwnerOnly_ByOther() {
 	w := setup(pickSide())
@@ -264,6 +268,7 @@ func H_Perp_OwnerOnly_ByOther() {
 
 // a successful open onto an existing position of the same owner (consolidation) leaves the merged position
 // with health strictly above the safety factor, recomputed here from the stored position (not read from it)
+//
 //vrf:cover open-ok
 //vrf:bound 1 existing position (LONG/uusdc or SHORT) of arbitrary health, consolidating open of the same side by its owner: symbolic collateral, leverage in [1, 10], swap rate; same block as the last settlement
 //vrf:max-paths 3000
@@ -294,4 +299,98 @@ func H_Perp_OpenConsolidate_Healthy() {
 	if herr == nil {
 		vrf.Assert(h.GT(perptypes.DefaultParams().SafetyFactor), "C10 consolidate: a successful consolidating open leaves the merged position's health strictly above the safety factor")
 	}
+}
+
+// ---- ledger after a close-positions message over two positions of one pool (C01 / C09 / C11) ----
+
+// Two LONG positions of the same owner-pool, the second with borrow interest accrued since block 90, both named in
+// one liquidate list; swap estimates are the fixed integer rate of this package (deterministic, so the path count
+// stays small). Afterwards: amm bank == book, pool totals == sums over the remaining positions, accounted pool ==
+// reserve + liabilities - custody.
+//
+//vrf:cover done
+//vrf:bound 2 LONG positions (uusdc collateral) of one pool, no other positions; custody / liabilities <= 1e18, symbolic integer swap rate, oracle price, cumulative interest rates over a 10-block interval for the second position
+//vrf:max-paths 6000
+func H_Perp_ClosePositions_TwoOfOnePool_Ledger() {
+	w := setup(perptypes.Position_LONG)
+	env, ctx := w.env, w.env.Ctx
+	cust, liab, coll := vrf.Int("custody2"), vrf.Int("liabilities2"), vrf.Int("collateralAmt2")
+	for _, x := range []sdkmath.Int{cust, liab, coll} {
+		vrf.Assume(x.IsPositive())
+		vrf.Assume(x.LTE(sdkmath.NewIntWithDecimal(1, 18)))
+	}
+	m := perptypes.NewMTP(ctx, owner.String(), usdc, atom, usdc, atom, perptypes.Position_LONG, w.mtp.TakeProfitPrice, 1)
+	m.Id = 2
+	m.Custody, m.Liabilities, m.Collateral = cust, liab, coll
+	m.StopLossPrice = sdkmath.LegacyZeroDec()
+	m.OpenPrice = sdkmath.LegacyOneDec()
+	m.LastInterestCalcBlock, m.LastInterestCalcTime = 90, now-60
+	env.Perp.SetMTP(ctx, m)
+	env.Perp.SetOpenMTPCount(ctx, 2)
+	env.Perp.SetMTPCount(ctx, 2)
+	i0, i1 := vrf.Dec("interest0"), vrf.Dec("interest1")
+	vrf.Assume(!i0.IsNegative())
+	vrf.Assume(i1.GTE(i0))
+	vrf.Assume(i1.LTE(sdkmath.LegacyNewDec(10)))
+	env.Perp.SetBorrowRate(ctx, 90, 1, perptypes.InterestBlock{InterestRate: i0, BlockHeight: 90, BlockTime: now - 60})
+	env.Perp.SetBorrowRate(ctx, 100, 1, perptypes.InterestBlock{InterestRate: i1, BlockHeight: 100, BlockTime: now})
+	pp, _ := env.Perp.GetPool(ctx, 1)
+	for i := range pp.PoolAssetsLong {
+		a := &pp.PoolAssetsLong[i]
+		if a.AssetDenom == atom {
+			a.Custody = a.Custody.Add(cust)
+		}
+		if a.AssetDenom == usdc {
+			a.Liabilities = a.Liabilities.Add(liab)
+			a.Collateral = a.Collateral.Add(coll)
+		}
+	}
+	env.Perp.SetPool(ctx, pp)
+	acc, _ := env.Acc.GetAccountedPool(ctx, 1)
+	for i := range acc.TotalTokens {
+		d := acc.TotalTokens[i].Denom
+		delta := sdkmath.ZeroInt()
+		for _, x := range env.Perp.GetAllMTPsForAddress(ctx, owner) {
+			if x.LiabilitiesAsset == d {
+				delta = delta.Add(x.Liabilities)
+			}
+			if x.CustodyAsset == d {
+				delta = delta.Sub(x.Custody)
+			}
+		}
+		big := sdkmath.NewIntWithDecimal(1, 30)
+		acc.TotalTokens[i].Amount = big.Add(delta)
+		acc.NonAmmPoolTokens[i].Amount = delta
+	}
+	env.Acc.SetAccountedPool(ctx, acc)
+	srv := perpkeeper.NewMsgServerImpl(*env.Perp)
+	_, err := srv.ClosePositions(ctx, &perptypes.MsgClosePositions{Creator: bot.String(), Liquidate: []perptypes.PositionRequest{{Address: owner.String(), Id: 1}, {Address: owner.String(), Id: 2}}})
+	vrf.Assert(err == nil, "C10: the batch handler itself does not fail")
+	vrf.Cover("done")
+	ammPool, _ := env.Amm.GetPool(ctx, 1)
+	pp2, _ := env.Perp.GetPool(ctx, 1)
+	acc2, _ := env.Acc.GetAccountedPool(ctx, 1)
+	mtps := env.Perp.GetAllMTPsForAddress(ctx, owner)
+	for i, a := range ammPool.PoolAssets {
+		d := a.Token.Denom
+		vrf.Assert(env.W.BalOf(poolAddr, d).Equal(a.Token.Amount), "C01 close-positions(two): amm bank == book ("+d+")")
+		l, c, k := sdkmath.ZeroInt(), sdkmath.ZeroInt(), sdkmath.ZeroInt()
+		for _, x := range mtps {
+			if x.LiabilitiesAsset == d {
+				l = l.Add(x.Liabilities)
+			}
+			if x.CustodyAsset == d {
+				c = c.Add(x.Custody)
+			}
+			if x.CollateralAsset == d {
+				k = k.Add(x.Collateral)
+			}
+		}
+		vrf.Assert(pp2.PoolAssetsLong[i].Liabilities.Equal(l), "C09 close-positions(two): long liabilities == sum over positions ("+d+")")
+		vrf.Assert(pp2.PoolAssetsLong[i].Custody.Equal(c), "C09 close-positions(two): long custody == sum over positions ("+d+")")
+		vrf.Assert(pp2.PoolAssetsLong[i].Collateral.Equal(k), "C09 close-positions(two): long collateral == sum over positions ("+d+")")
+		vrf.Assert(a.Token.Amount.GTE(c), "C09 close-positions(two): the liquidity pool holds at least the total custody ("+d+")")
+		vrf.Assert(acc2.TotalTokens[i].Amount.Equal(a.Token.Amount.Add(l).Sub(c)), "C11 close-positions(two): accounted balance == reserve + liabilities - custody ("+d+")")
+	}
+	vrf.Assert(env.Perp.GetOpenMTPCount(ctx) == uint64(len(mtps)), "C09 close-positions(two): open-position counter == number of stored positions")
 }
